@@ -14,12 +14,14 @@ Step(e) ==
       [] e.op = "PopLast" -> PopLast
       [] e.op = "PopFirst" -> PopFirst
       [] e.op = "Clear" -> Clear
+      [] e.op = "Swap" -> Swap
       [] e.op = "IOr" -> IOr(e.q)
       [] e.op = "IAnd" -> IAnd(e.q)
       [] e.op = "ISub" -> ISub(e.q)
-      [] e.op = "IXor" -> s' = e.list /\ res' = None
-      [] e.op = "ISelf" -> IF e.o = "xor" THEN s' = e.list /\ res' = None ELSE ISelf(e.o)
-      [] e.op = "Pure" -> s' = s /\ res' = e.res
+      [] e.op = "IXor" -> s' = e.list /\ res' = None /\ r' = r
+      [] e.op = "ISelf" -> IF e.o = "xor" THEN s' = e.list /\ res' = None /\ r' = r ELSE ISelf(e.o)
+      \* (the result of a pure operator is the other set from now on)
+      [] e.op = "Pure" -> s' = s /\ res' = e.res /\ r' = (IF e.res.k = "seq" THEN e.res.q ELSE r)
       [] e.op = "IterRemove" -> IterRemove({x \in Elem : e.f[x]})
       [] e.op = "RevIterRemove" -> RevIterRemove({x \in Elem : e.f[x]})
       [] e.op = "Eq" -> Eq(e.q)
@@ -38,6 +40,8 @@ Conform(e) == FirstBad(<<
     <<"admissible", Admissible(e)>>,
     <<"res", res' = e.res>>,
     <<"list", s' = e.list>>,
+    \* the other set (the result of the latest pure operator, or the parked set) as it iterates now
+    <<"other", r' = e.other>>,
     <<"reversed", Reverse(s') = e.rev>>,
     <<"len", Len(s') = e.len>>,
     <<"member", \A x \in Elem : (x \in Rng(s')) = e.mem[x]>>,
@@ -47,7 +51,7 @@ Conform(e) == FirstBad(<<
 
 TNext == /\ TEnabled
          /\ Step(Ev)
-         /\ Advance(Conform(Ev), <<s', res'>>)
+         /\ Advance(Conform(Ev), <<s', r', res'>>)
 
 TSpec == TInit /\ [][TNext]_<<vars, tvars>>
 =============================================================================
